@@ -54,11 +54,13 @@ impl util::SymbolManager<asm::Symbol>
                         {
                             // Labels that lie inside the 16-byte file header
                             // have no PRG ROM offset
+                            // The offset of the label in the file, in bits
+                            // first: a bank need not start on a byte
                             let maybe_prg_offset = addr
                                 .checked_sub(addr_start)
                                 .and_then(|v| v.checked_mul(bankdef.addr_unit))
+                                .and_then(|v| v.checked_add(output_offset))
                                 .map(|v| v / 8)
-                                .and_then(|v| v.checked_add(output_offset / 8))
                                 .and_then(|v| v.checked_sub(0x10));
 
                             if let Some(prg_offset) = maybe_prg_offset
